@@ -305,7 +305,7 @@ func checkCmd(opts *RunOpts, args []string) int {
 	witnessCache := map[string]bool{}
 	var unsatCore []string
 	cexCache := map[string]*Cex{}
-	var cov_order, cov_rel, cov_neg, cov_q map[string]any
+	var cov_order, cov_rel, cov_neg, cov_q, cov_d map[string]any
 
 	for _, res := range run.Results {
 		if res.Trusted {
@@ -496,6 +496,15 @@ func checkCmd(opts *RunOpts, args []string) int {
 		}
 		cov_neg = cv
 	}
+	if run.DRan {
+		_, vl, cv := boundedListVerdict(opts, prop, known, "bounded.dispose.scenarios", "none.txt", run.DFailing, run.DTotal,
+			"disposal landing {idle, inside a final handler, inside a negotiation handler, twice, DisposeForce, parent context canceled} x Start active or not x with or without the Disposing/Disposed mixin handlers",
+			"", "leave a waiter, a state context or the caller hanging, or run a dispose handler not exactly once", nil)
+		if vl != "" {
+			violations = append(violations, vl)
+		}
+		cov_d = cv
+	}
 	if run.QRan {
 		_, vl, cv := boundedListVerdict(opts, prop, known, "bounded.queue.drain", "none.txt", run.QFailing, run.QTotal,
 			"states A,B,C (CEnter vetoes or not), Add A whose final handler issues every script of up to 2 Add/Remove mutations",
@@ -563,6 +572,9 @@ func checkCmd(opts *RunOpts, args []string) int {
 	}
 	if cov_rel != nil {
 		cov["bounded_relations_standin"] = cov_rel
+	}
+	if cov_d != nil {
+		cov["bounded_dispose_standin"] = cov_d
 	}
 	if cov_q != nil {
 		cov["bounded_queue_standin"] = cov_q
